@@ -2675,13 +2675,14 @@ class sptensor:
             # Find where their nonzeros intersect
             # TODO consider if intersect rows should return 3 args so we don't have to
             #  call it twice
-            nzsubsIdx = tt_intersect_rows(self.subs, other.subs)
-            nzsubs = self.subs[nzsubsIdx]
-            iother = tt_intersect_rows(other.subs, self.subs)
-            equal_subs = self.vals[nzsubsIdx] == other.vals[iother]
             znzsubs = np.empty(shape=(0, other.ndims), dtype=int)
-            if equal_subs.size > 0:
-                znzsubs = nzsubs[(equal_subs).transpose()[0], :]
+            if self.nnz > 0 and other.nnz > 0:
+                # Pair the stored entries of both operands by subscript
+                matched, iother = tt_ismember_rows(self.subs, other.subs)
+                nzsubs = self.subs[matched]
+                equal_subs = self.vals[matched] == other.vals[iother[matched]]
+                if equal_subs.size > 0:
+                    znzsubs = nzsubs[(equal_subs).transpose()[0], :]
 
             return sptensor(
                 np.vstack((zzerosubs, znzsubs)),
